@@ -62,6 +62,9 @@ type docCase struct {
 	HasIgnore bool      `json:"has_ignore"`
 	Ignore    string    `json:"ignore"`
 	Quote     bool      `json:"quote_keys"`
+	// Skeleton: how a schema file without objects is written: 0 the full skeleton with `objects: {}`, 1 an empty
+	// file, 2 blanks and comments only, 3 `{}`, 4 a bare document marker, 5 the skeleton cut off after `input:`
+	Skeleton int `json:"skeleton,omitempty"`
 }
 
 var yamlWords = map[string]bool{"true": true, "false": true, "null": true, "yes": true, "no": true, "on": true, "off": true, "y": true, "n": true,
@@ -78,6 +81,18 @@ func (c docCase) yaml() string {
 	var sb strings.Builder
 	sb.WriteString("steps:\n  create:\n    id: create\n    input:\n")
 	if len(c.Objects) == 0 {
+		switch c.Skeleton {
+		case 1:
+			return ""
+		case 2:
+			return "# a schema without objects\n\n   \n# nothing here\n"
+		case 3:
+			return "{}\n"
+		case 4:
+			return "---\n"
+		case 5:
+			return sb.String()
+		}
 		sb.WriteString("      objects: {}\n")
 		return sb.String()
 	}
@@ -354,6 +369,9 @@ func genDoc() *rapid.Generator[docCase] {
 	return rapid.Custom(func(t *rapid.T) docCase {
 		c := docCase{Quote: rapid.IntRange(0, 3).Draw(t, "quote") == 0}
 		nObj := rapid.IntRange(0, 8).Draw(t, "nObjects")
+		if nObj == 0 {
+			c.Skeleton = rapid.IntRange(0, 5).Draw(t, "skeleton")
+		}
 		seen := map[string]bool{}
 		withMap := rapid.IntRange(0, 19).Draw(t, "mapClass") == 0
 		for i := 0; i < nObj; i++ {
